@@ -274,7 +274,10 @@ where
     // lines, field bytes, whitespace runs, header lines) beyond 2^16
     const SIZES: [usize; 9] = [40, 100, 180, 300, 700, 1500, 4200, 66_000, 131_500];
     let vars = 3u64;
-    let total = crate::gen::N_FAMILIES as u64 * SIZES.len() as u64 * vars;
+    // the prefix-closure checks (C02, C11) parse dozens of prefixes (and completions) of every
+    // case: they stop at 4 KiB here (C02 has its own 140 KiB tail phase)
+    let nsizes = if sub == "prefix" || sub == "partial-prefixes" { 7 } else { SIZES.len() };
+    let total = crate::gen::N_FAMILIES as u64 * nsizes as u64 * vars;
     r.par_enum("scale families at 40 B..4 KiB, 66 000 B and 131 500 B × {whole, truncated, late error}: long fields, whitespace runs, many headers, folds, ignored lines", total, |ctx, l, idx| {
         let var = idx % vars;
         let x = idx / vars;
